@@ -60,6 +60,7 @@ func c16(c *core.Check) {
 	argNameRule(c, rArgs, "html/document", map[string]bool{"stacking.go": true, "draw.go": true}, 19)
 
 	c16Dispatch(c)
+	c16Page(c)
 
 	dsc := p.Method("html/document", "drawContext", "drawStackingContext")
 	if dsc == nil {
@@ -578,4 +579,46 @@ func c16Dispatch(c *core.Check) {
 	if nI < 3 {
 		r.Unknown("dispatch | insertions", p.Pos(fn.Pos()), fmt.Sprintf("%d insertions found, 3 expected", nI))
 	}
+}
+
+// c16Page: the layers of a page, bottom to top.
+func c16Page(c *core.Check) {
+	p := c.Prog
+	r := c.Rule("R6", "drawPage paints, bottom to top: the page box's own background (@page), the canvas background propagated from the root element, the page border, then the root stacking context (CSS Paged Media 3 §4: the canvas is painted over the page background)", 3)
+	fn := p.Method("html/document", "drawContext", "drawPage")
+	if fn == nil {
+		r.Anchor("html/document.drawContext.drawPage")
+		return
+	}
+	var pageBg, canvasBg, border, content ssa.Instruction
+	core.Instrs(fn, func(in ssa.Instruction) {
+		call, ok := in.(*ssa.Call)
+		if !ok || call.Call.StaticCallee() == nil {
+			return
+		}
+		switch call.Call.StaticCallee().Name() {
+		case "drawBackground":
+			if len(call.Call.Args) < 2 {
+				return
+			}
+			arg := call.Call.Args[1]
+			switch {
+			case core.DerivesFrom(arg, func(v ssa.Value) bool { return core.IsFieldNamed(v, "CanvasBackground") }):
+				canvasBg = in
+			case core.DerivesFrom(arg, func(v ssa.Value) bool { return core.IsFieldNamed(v, "Background") }):
+				pageBg = in
+			}
+		case "drawBorder":
+			border = in
+		case "drawStackingContext":
+			content = in
+		}
+	})
+	if pageBg == nil || canvasBg == nil || border == nil || content == nil {
+		r.Anchor("drawPage: drawBackground(page background), drawBackground(canvas background), drawBorder, drawStackingContext")
+		return
+	}
+	r.Cond(instrDominates(pageBg, canvasBg), "html/document.drawPage | page background below the canvas background", p.Pos(canvasBg.Pos()), "the @page background is painted first", "the canvas background is painted before the page box's own background, which then covers it")
+	r.Cond(instrDominates(canvasBg, border), "html/document.drawPage | backgrounds below the page border", p.Pos(border.Pos()), "backgrounds first", "the page border is painted before a background")
+	r.Cond(instrDominates(border, content), "html/document.drawPage | page decorations below the content", p.Pos(content.Pos()), "the root stacking context is painted last", "the content is painted before the page's border")
 }
